@@ -286,6 +286,16 @@ func (x *Exec) mergeVal(conds []T, vals []Val, hint string) Val {
 			return Opaque{Desc: "slice merge with different backing stores"}
 		}
 		return &res
+	case FloatV:
+		t := vals[len(vals)-1].(FloatV).Bits
+		for i := len(vals) - 2; i >= 0; i-- {
+			f, ok := vals[i].(FloatV)
+			if !ok {
+				return Opaque{Desc: "merge mismatch"}
+			}
+			t = mkIte(conds[i], f.Bits, t)
+		}
+		return FloatV{Bits: x.vc.define(hint, t), W: v0.W}
 	case Ptr, PtrSet:
 		// pointers to modelled math/big values: keep every alternative with its path condition
 		ps := PtrSet{}
@@ -358,6 +368,9 @@ func valEqual(a, b Val) bool {
 			}
 		}
 		return true
+	case FloatV:
+		y, ok := b.(FloatV)
+		return ok && x.W == y.W && x.Bits.S == y.Bits.S
 	case PtrSet:
 		y, ok := b.(PtrSet)
 		if !ok || len(x.Ptrs) != len(y.Ptrs) {
@@ -878,6 +891,8 @@ func (x *Exec) sliceStoredIn(li *loopInfo, c *Cell) bool {
 
 func (x *Exec) havocLike(v Val, hint string) Val {
 	switch y := v.(type) {
+	case FloatV:
+		return x.freshFloat(hint, y.W)
 	case Leaf:
 		if y.MT != nil {
 			c := x.vc.fresh(hint, x.th.Sort(*y.MT))
@@ -1191,6 +1206,21 @@ func (x *Exec) binop(i *ssa.BinOp) Val {
 		}
 		panic(unsupported("string operator " + i.Op.String()))
 	}
+	if fa, ok := a.(FloatV); ok {
+		fb, ok2 := b.(FloatV)
+		if ok2 && fa.W == 64 && fb.W == 64 && (i.Op == token.EQL || i.Op == token.NEQ) {
+			// IEEE equality: no NaN involved, and equal patterns or both zeros
+			nan := func(f FloatV) T { return mkAnd(mkEq(f64exp(f.Bits), intT64(2047)), mkNot(mkEq(f64man(f.Bits), intT64(0)))) }
+			zero := func(f FloatV) T { return mkOr(mkEq(f.Bits, intT64(0)), mkEq(f.Bits, intT(pow2(63)))) }
+			eq := mkAnd(mkNot(nan(fa)), mkNot(nan(fb)), mkOr(mkEq(fa.Bits, fb.Bits), mkAnd(zero(fa), zero(fb))))
+			if i.Op == token.NEQ {
+				eq = mkNot(eq)
+			}
+			return Leaf{T: x.vc.define("feq", eq)}
+		}
+		// any other floating-point operation: unconstrained result
+		return x.freshVal("fop", i.Type())
+	}
 	// pointer compared with nil: pointers handled by the generator are addresses of cells (parameters are
 	// assumed non-nil, allocations are non-nil)
 	isPtr := func(v Val) bool {
@@ -1280,7 +1310,20 @@ func (x *Exec) convert(i *ssa.Convert) Val {
 			return x.copySlice(s, isStringType(i.Type()))
 		}
 	}
-	// float conversions etc.
+	// float32 -> float64 is exact: the class (NaN, infinity, zero) and the sign are preserved; the
+	// pattern itself is not modelled
+	if f, ok := v.(FloatV); ok && f.W == 32 && floatWidth(i.Type()) == 64 {
+		r := x.freshFloat("widen", 64)
+		e32 := T{S: fmt.Sprintf("(mod (div %s 8388608) 256)", f.Bits.S), Sort: sortInt}
+		m32 := T{S: fmt.Sprintf("(mod %s 8388608)", f.Bits.S), Sort: sortInt}
+		x.vc.assume(mkAnd(
+			mkEq(mkEq(e32, intT64(255)), mkEq(f64exp(r.Bits), intT64(2047))),
+			mkImp(mkEq(e32, intT64(255)), mkEq(mkEq(m32, intT64(0)), mkEq(f64man(r.Bits), intT64(0)))),
+			mkEq(mkCmp(">=", f.Bits, intT(pow2(31))), f64neg(r.Bits)),
+			mkEq(mkAnd(mkEq(e32, intT64(0)), mkEq(m32, intT64(0))), mkAnd(mkEq(f64exp(r.Bits), intT64(0)), mkEq(f64man(r.Bits), intT64(0))))))
+		return r
+	}
+	// other float conversions etc.
 	return x.freshVal("conv", i.Type())
 }
 
